@@ -244,6 +244,105 @@ fn replay_search(idx: u64, b: &Value, prop: &str, out: &mut Out) {
     }
 }
 
+/// A history of API calls (spec/Daachorse.tla): several automata, several live iterators with
+/// interleaved next() calls, serialisation round trips at arbitrary points.  Every next() result
+/// and the number of bytes pulled from the source are compared with what the specification
+/// recorded.  Replayed under every label map.
+fn replay_history(idx: u64, b: &Value, out: &mut Out) {
+    let ops = b["ops"].as_array().unwrap();
+    for lm in MAPS.iter() {
+        // automata live as long as the iterators borrowing them: leak them (short-lived process)
+        let mut autos: HashMap<u64, &'static Pma<u64>> = HashMap::new();
+        let mut kinds: HashMap<u64, String> = HashMap::new();
+        struct Live {
+            it: StepIter<'static, u64>,
+            off: Vec<usize>,
+            method: String,
+            kind: String,
+            entry: String,
+        }
+        let mut iters: HashMap<u64, Live> = HashMap::new();
+        for (k, op) in ops.iter().enumerate() {
+            out.executions += 1;
+            match op["op"].as_str().unwrap() {
+                "build" => {
+                    let pats: Vec<Pat> = op["pats"].as_array().unwrap().iter()
+                        .map(|p| seq_of(p).iter().map(|&l| lm.map[l as usize]).collect()).collect();
+                    let kind = Kind::parse(op["kind"].as_str().unwrap());
+                    let spec = BuildSpec { var: lm.var, kind, entry: "new", via_builder: true,
+                                           nfb: if k % 2 == 0 { 1 } else { 16 }, pats };
+                    let (outcome, pma) = build::<u64>(&spec, &[]);
+                    match pma {
+                        Some(p) => {
+                            autos.insert(op["h"].as_u64().unwrap(), Box::leak(Box::new(p)));
+                            kinds.insert(op["h"].as_u64().unwrap(), op["kind"].as_str().unwrap().to_string());
+                        }
+                        None => {
+                            out.mismatches.push(json!({"idx": idx, "tags": ["C10"], "what": "build of a valid collection failed",
+                                "map": lm.name, "got": outcome, "behaviour": b}));
+                            return;
+                        }
+                    }
+                }
+                "roundtrip" => {
+                    let src = autos[&op["h"].as_u64().unwrap()];
+                    let mut bytes = src.serialize();
+                    let n = bytes.len();
+                    bytes.extend_from_slice(&[9, 8, 7]);
+                    let (p2, rest) = Pma::<u64>::deserialize(lm.var, &bytes);
+                    if rest != [9, 8, 7] || !src.same(&p2) || p2.serialize()[..] != bytes[..n] {
+                        out.mismatches.push(json!({"idx": idx, "tags": ["C09"], "what": "round trip: not equal / wrong remainder / different bytes",
+                            "map": lm.name, "step": k, "behaviour": b}));
+                    }
+                    let k0 = kinds[&op["h"].as_u64().unwrap()].clone();
+                    autos.insert(op["h2"].as_u64().unwrap(), Box::leak(Box::new(p2)));
+                    kinds.insert(op["h2"].as_u64().unwrap(), k0);
+                }
+                "iter" => {
+                    let h = op["h"].as_u64().unwrap();
+                    let chay: Vec<u32> = seq_of(&op["hay"]).iter().map(|&l| lm.map[l as usize]).collect();
+                    let mut off = vec![0usize];
+                    let mut hbytes = vec![];
+                    for &l in &chay {
+                        off.push(off.last().unwrap() + width(lm.var, l));
+                        hbytes.extend_from_slice(&pat_bytes(lm.var, &vec![l]));
+                    }
+                    let hay: &'static Rc<Vec<u8>> = Box::leak(Box::new(Rc::new(hbytes)));
+                    let method = op["method"].as_str().unwrap().to_string();
+                    let entry = op["entry"].as_str().unwrap().to_string();
+                    let it = autos[&h].iter(&method, &entry, hay);
+                    iters.insert(op["it"].as_u64().unwrap(), Live { it, off, method, kind: kinds[&h].clone(), entry });
+                }
+                "next" => {
+                    let l = iters.get_mut(&op["it"].as_u64().unwrap()).unwrap();
+                    let (m, pulled, _, _) = l.it.step();
+                    let got: Vec<(i64, i64, String)> = m.iter().map(|m| (m.s, m.e, m.v.clone())).collect();
+                    let exp: Vec<(i64, i64, String)> = op["res"].as_array().unwrap().iter().map(|m| {
+                        let m = m.as_array().unwrap();
+                        (l.off[m[0].as_u64().unwrap() as usize] as i64, l.off[m[1].as_u64().unwrap() as usize] as i64,
+                         (m[2].as_u64().unwrap() - 1).to_string())
+                    }).collect();
+                    if got != exp {
+                        out.mismatches.push(json!({"idx": idx, "tags": [method_prop(&l.method, &l.kind), "C12", "C14"],
+                            "what": "next() in an interleaved history", "map": lm.name, "step": k,
+                            "expected": exp, "got": got, "behaviour": b}));
+                        return;
+                    }
+                    if l.entry == "iter" {
+                        let exp_pulled = l.off[op["pulled"].as_u64().unwrap() as usize] as i64;
+                        if pulled != exp_pulled {
+                            out.mismatches.push(json!({"idx": idx, "tags": ["C12"], "what": "bytes pulled from the source",
+                                "map": lm.name, "step": k, "expected": exp_pulled, "got": pulled, "behaviour": b}));
+                            return;
+                        }
+                    }
+                }
+                _ => {}
+            }
+        }
+    }
+}
+
 fn replay_build(idx: u64, b: &Value, out: &mut Out) {
     let kind = Kind::parse(b["kind"].as_str().unwrap());
     let pats: Vec<Vec<u32>> = b["pats"].as_array().unwrap().iter().map(seq_of).collect();
@@ -304,6 +403,7 @@ fn child(a: &HashMap<String, String>) -> i32 {
                     replay_build(idx, &b, &mut out)
                 }
             }
+            Some("history") => replay_history(idx, &b, &mut out),
             _ => {}
         }));
         if let Err(e) = r {
